@@ -121,6 +121,11 @@ def random_scenario(rng: random.Random, nsims=(2, 4), nconns=(1, 5), until=(2, 4
                     and not any(o is not c and (o["src"], o["se"], o["sa"], o["dst"], o["de"], o["da"]) == (c["src"], c["se"], c["sa"], c["dst"], c["de"], c["sa"])
                                 for o in scn["conns"])):
                 c["da"], c["trig"] = c["sa"], False
+    # (drawn after everything else, so that the scenarios of a seed are the ones they were before this option existed)
+    if rng.random() < 0.25:
+        # the scripted simulators also issue the information requests get_progress / get_related_entities during their steps
+        # (clauses IR_* of MosaikRef; see drive._info_calls)
+        scn["info_requests"] = rng.randint(1, 10**6)
     return scn
 
 
